@@ -11,11 +11,19 @@ LEVELS = ("exploration", "fault_enumeration", "model_checking", "proof", "transl
 
 
 def load_findings():
-    p = os.path.join(ROOT, "known_findings.json")
-    if not os.path.exists(p):
-        return {"findings": [], "fixed": []}
-    with open(p) as f:
-        return json.load(f)
+    """known_findings.json plus one optional file per property under known_findings.d/"""
+    out = {"findings": [], "fixed": []}
+    paths = [os.path.join(ROOT, "known_findings.json")]
+    d = os.path.join(ROOT, "known_findings.d")
+    if os.path.isdir(d):
+        paths += [os.path.join(d, f) for f in sorted(os.listdir(d)) if f.endswith(".json")]
+    for p in paths:
+        if os.path.exists(p):
+            with open(p) as f:
+                j = json.load(f)
+            out["findings"] += j.get("findings", [])
+            out["fixed"] += j.get("fixed", [])
+    return out
 
 
 class Ctx:
